@@ -242,7 +242,10 @@ func (b *Billet) traverse(curr Node, path, from []byte, process func(pathToNode 
 		}
 		return b.traverse(r, path, from, process, ignoreStorageErr, backwards)
 	}
-	if len(from) == 0 {
+	// A leaf reached with a non-empty `from` has a key that is a proper prefix of
+	// the start position, i.e. it precedes it: out of range when traversing
+	// forwards, in range when traversing backwards.
+	if _, isLeaf := curr.(*LeafNode); len(from) == 0 || (backwards && isLeaf) {
 		bytes := bytes.Clone(curr.Bytes())
 		if process(fromNibbles(path), curr, bytes) {
 			return curr, errStop
@@ -319,7 +322,7 @@ func (b *Billet) traverse(curr Node, path, from []byte, process func(pathToNode 
 	case *ExtensionNode:
 		if len(from) != 0 && bytes.HasPrefix(from, n.key) {
 			from = from[len(n.key):]
-		} else if len(from) == 0 || bytes.Compare(n.key, from) > 0 {
+		} else if len(from) == 0 || bytes.HasPrefix(n.key, from) || (bytes.Compare(n.key, from) > 0) != backwards {
 			from = []byte{}
 		} else {
 			return b.tryCollapseExtension(n), nil
